@@ -159,9 +159,9 @@ def eval_format(sim, fmt):
     return "".join(chunks)
 
 
-def _eval_assign_inner(sim, lhs, lhs_start, rhs, rhs_len):
+def _eval_assign_inner(sim, lhs, lhs_start, rhs, rhs_len, *, apply):
     if isinstance(lhs, Operator) and lhs.operator in ("u", "s"):
-        _eval_assign_inner(sim, lhs.operands[0], lhs_start, rhs, rhs_len)
+        _eval_assign_inner(sim, lhs.operands[0], lhs_start, rhs, rhs_len, apply=apply)
     elif isinstance(lhs, Signal):
         lhs_stop = lhs_start + rhs_len
         if lhs_stop > len(lhs):
@@ -171,6 +171,8 @@ def _eval_assign_inner(sim, lhs, lhs_start, rhs, rhs_len):
         slot = sim.get_signal(lhs)
         if sim.slots[slot].is_comb:
             raise DriverConflict("Combinationally driven signals cannot be overriden by testbenches")
+        if not apply:
+            return
         value = sim.slots[slot].next
         mask = (1 << lhs_stop) - (1 << lhs_start)
         value &= ~mask
@@ -185,6 +187,8 @@ def _eval_assign_inner(sim, lhs, lhs_start, rhs, rhs_len):
             lhs_stop = len(lhs)
         if lhs_start >= len(lhs):
             return
+        if not apply:
+            return
         slot = sim.get_memory(lhs._memory)
         mask = (1 << lhs_stop) - (1 << lhs_start)
         sim.slots[slot].write(lhs._index, rhs << lhs_start, mask)
@@ -193,7 +197,7 @@ def _eval_assign_inner(sim, lhs, lhs_start, rhs, rhs_len):
         if lhs_start >= len(lhs):
             return
         rhs_len = min(rhs_len, len(lhs) - lhs_start)
-        _eval_assign_inner(sim, lhs.value, lhs_start + lhs.start, rhs & ((1 << rhs_len) - 1), rhs_len)
+        _eval_assign_inner(sim, lhs.value, lhs_start + lhs.start, rhs & ((1 << rhs_len) - 1), rhs_len, apply=apply)
     elif isinstance(lhs, Concat):
         part_stop = 0
         for part in lhs.parts:
@@ -216,7 +220,7 @@ def _eval_assign_inner(sim, lhs, lhs_start, rhs, rhs_len):
                 part_rhs_len = rhs_len - part_rhs_start
             part_rhs = rhs >> part_rhs_start
             part_rhs &= (1 << part_rhs_len) - 1
-            _eval_assign_inner(sim, part, part_lhs_start, part_rhs, part_rhs_len)
+            _eval_assign_inner(sim, part, part_lhs_start, part_rhs, part_rhs_len, apply=apply)
     elif isinstance(lhs, Part):
         # Likewise for the bits that fall outside of the selected part.
         if lhs_start >= lhs.width:
@@ -224,16 +228,19 @@ def _eval_assign_inner(sim, lhs, lhs_start, rhs, rhs_len):
         rhs_len = min(rhs_len, lhs.width - lhs_start)
         offset = eval_value(sim, lhs.offset)
         offset *= lhs.stride
-        _eval_assign_inner(sim, lhs.value, lhs_start + offset, rhs & ((1 << rhs_len) - 1), rhs_len)
+        _eval_assign_inner(sim, lhs.value, lhs_start + offset, rhs & ((1 << rhs_len) - 1), rhs_len, apply=apply)
     elif isinstance(lhs, SwitchValue):
         test = eval_value(sim, lhs.test)
         for patterns, val in lhs.cases:
             if _eval_matches(test, patterns):
-                _eval_assign_inner(sim, val, lhs_start, rhs, rhs_len)
+                _eval_assign_inner(sim, val, lhs_start, rhs, rhs_len, apply=apply)
                 return
     else:
         raise ValueError(f"Value {lhs!r} cannot be assigned")
 
 
 def eval_assign(sim, lhs, value):
-    _eval_assign_inner(sim, lhs, 0, value, len(lhs))
+    # An assignment that is refused (because a part of the target is driven combinationally) must
+    # not update the parts of the target that precede the offending one: check first, then apply.
+    _eval_assign_inner(sim, lhs, 0, value, len(lhs), apply=False)
+    _eval_assign_inner(sim, lhs, 0, value, len(lhs), apply=True)
